@@ -50,6 +50,7 @@ public:
                     return;
                 }
             }
+            if (YK_NOSLEEP()) { continue; }
             std::this_thread::sleep_for(std::chrono::microseconds(1));
         }
     }
